@@ -245,8 +245,10 @@ def shard_main(ck, shard, nshards):
   mujoco, mjx, jax, jp = mjxload.load()
   lib = ck.lib('rel')
   worst = collections.defaultdict(float)
-  npoints = 2 if ck.quick else 6
-  nmodels = max(1, -(-ck.budget(6, 60) // nshards))
+  npoints = 3 if ck.quick else 6
+  quota = 1
+  done = [0]
+  nmodels = 14 if ck.quick else max(1, -(-ck.budget(6, 60) // nshards))
   t_start = time.time()
   t_budget = float(os.environ.get('C45_TIME', 100 if ck.quick else 1200))
   names_seen = collections.Counter()
@@ -265,9 +267,17 @@ def shard_main(ck, shard, nshards):
     if crash:
       ck.discard(crash); return
     tm = c.tm
-    if ck.quick and (tm.nv > 6 or c.dx0._impl.nefc > 24):
-      ck.discard('too-large-for-quick-tier')     # three jit compilations (vmap g, jacfwd, jacrev) grow quickly with nefc
-      return
+    quatj = any(int(t) in (0, 1) for t in np.asarray(tm.jnt_type))
+    nt = tm.nv >= 3 and (quatj or tm.na > 0)
+    if ck.quick:
+      # three jit compilations per model (vmap g, jacfwd, jacrev), 30-200 s depending on load: the quick tier compiles
+      # `quota` models per worker and spends them on non-trivial, moderately sized structures only
+      if done[0] >= quota:
+        ck.discard('quick-quota-reached'); return
+      if not nt:
+        ck.discard('trivial-skipped-in-quick-tier'); return
+      if tm.nv > 6 or c.dx0._impl.nefc > 16:
+        ck.discard('too-large-for-quick-tier'); return
     pts = []
     for sd in seeds:
       s = gx.make_state(lib, tm, sd, pos_scale=0.3, vel_scale=1.0, forces=True, warm=False)
@@ -280,11 +290,10 @@ def shard_main(ck, shard, nshards):
       pts.append((sd, s))
     if not pts:
       return
+    done[0] += 1
     t0 = time.time()
     G = GradCase(c, gm)
     labels = gm.labels()
-    quatj = any(int(t) in (0, 1) for t in np.asarray(tm.jnt_type))
-    nt = tm.nv >= 3 and (quatj or tm.na > 0)
     for sd, s in pts:
       x0 = G.x0(s)
       dxs = gx.single_data(c, s)
@@ -352,7 +361,7 @@ def main(ck):
   ck.rule = RULE
   ck.assumptions = ASSUMPTIONS
   nshards = int(os.environ.get('C45_SHARDS', 3 if ck.quick else 6))
-  extra = mjxshard.run(ck, 'c45', nshards, timeout=(600 if ck.quick else 3600))
+  extra = mjxshard.run(ck, 'c45', nshards, timeout=(1800 if ck.quick else 5400))
   worst = mjxshard.merge_max(extra.get('worst', []))
   ck.extra['worst_row_scaled_err'] = {k: float('%.3g' % v) for k, v in worst.items()}
   ck.extra['shards'] = nshards
